@@ -161,7 +161,11 @@ def inline_aliases(body, params, keep=()):
             return node
 
         def visit_Lambda(self, node):
-            node.body = self.visit(node.body)
+            self.shadow.append({a.arg for a in node.args.args + node.args.kwonlyargs + node.args.posonlyargs})
+            try:
+                node.body = self.visit(node.body)
+            finally:
+                self.shadow.pop()
             return node
 
     def strip(stmts):
@@ -338,6 +342,28 @@ def inline_procedures(body, func, prog, depth=0):
     return out
 
 
+_ANCHORS = None
+
+
+def anchor_names():
+    """Identifiers the rule modules mention.  A repository function whose name
+    the rules know is part of their vocabulary and is never inlined away;
+    helpers the rules have never heard of (typically freshly extracted ones)
+    are transparent."""
+    global _ANCHORS
+    if _ANCHORS is None:
+        import os
+        import re as _re
+        here = os.path.dirname(os.path.abspath(__file__))
+        names = set()
+        for fn in sorted(os.listdir(here)):
+            if fn.startswith("rules_") and fn.endswith(".py"):
+                with open(os.path.join(here, fn), encoding="utf8") as fh:
+                    names |= set(_re.findall(r"[A-Za-z_][A-Za-z0-9_]*", fh.read()))
+        _ANCHORS = names
+    return _ANCHORS
+
+
 def _private_callee(call, func, prog, allow_public_local=False):
     """(helper Func, param->arg mapping) for a call to a private helper of the
     same module / class (name starts with '_', not a dunder), else (None, None)."""
@@ -357,6 +383,8 @@ def _private_callee(call, func, prog, allow_public_local=False):
         if got and got[0] == "method" and recv in (func.self_param(), func.cls.name, "self", "cls"):
             target = got[1]
             skip = 0 if target.kind == "staticmethod" else 1
+    if target is not None and target.name in anchor_names() and target.name not in getattr(func, "nested", {}):
+        return None, None
     if target is None or any(isinstance(a, ast.Starred) for a in call.args) or any(k.arg is None for k in call.keywords):
         return None, None
     params = list(target.params)[skip:]
@@ -427,9 +455,13 @@ def inline_single_returns(body, func, prog):
             hb = [x for x in h.body if not (isinstance(x, ast.Expr) and isinstance(x.value, ast.Constant))]
             if len(hb) > 1:
                 hb = inline_aliases(hb, [p.name for p in h.params])
-            if len(hb) == 1 and isinstance(hb[0], ast.Return) and hb[0].value is not None:
+            as_expr = None
+            if not (len(hb) == 1 and isinstance(hb[0], ast.Return)):
+                as_expr = _as_expression(hb)
+            if (len(hb) == 1 and isinstance(hb[0], ast.Return) and hb[0].value is not None) or as_expr is not None:
                 self.depth += 1
-                new = _subst_body([ast.Expr(value=hb[0].value)], mapping)[0].value
+                val = as_expr if as_expr is not None else hb[0].value
+                new = _subst_body([ast.Expr(value=val)], mapping)[0].value
                 new = self.visit(new)
                 self.depth -= 1
                 return new
@@ -441,6 +473,92 @@ def inline_single_returns(body, func, prog):
     for x in out:
         ast.fix_missing_locations(x)
     return out
+
+
+def _subst_expr(expr, mapping):
+    """Capture-aware substitution of free names in an expression."""
+    class S(ast.NodeTransformer):
+        def __init__(self):
+            self.shadow = []
+
+        def visit_Name(self, node):
+            if isinstance(node.ctx, ast.Load) and node.id in mapping and not any(node.id in sh for sh in self.shadow):
+                return copy.deepcopy(mapping[node.id])
+            return node
+
+        def visit_Lambda(self, node):
+            self.shadow.append({a.arg for a in node.args.args + node.args.kwonlyargs + node.args.posonlyargs})
+            try:
+                node.body = self.visit(node.body)
+            finally:
+                self.shadow.pop()
+            return node
+
+        def _comp(self, node):
+            names = set()
+            for g in node.generators:
+                for x in ast.walk(g.target):
+                    if isinstance(x, ast.Name):
+                        names.add(x.id)
+            # the first iterable is evaluated outside the comprehension scope
+            node.generators[0].iter = self.visit(node.generators[0].iter)
+            self.shadow.append(names)
+            try:
+                for i, g in enumerate(node.generators):
+                    if i:
+                        g.iter = self.visit(g.iter)
+                    g.ifs = [self.visit(c) for c in g.ifs]
+                for fld in ("elt", "key", "value"):
+                    if hasattr(node, fld):
+                        setattr(node, fld, self.visit(getattr(node, fld)))
+            finally:
+                self.shadow.pop()
+            return node
+        visit_ListComp = visit_SetComp = visit_DictComp = visit_GeneratorExp = _comp
+    return S().visit(copy.deepcopy(expr))
+
+
+def beta_reduce(body):
+    """`(lambda a, b: E)(x, y)`  ==>  E[a:=x, b:=y]  (positional, exact arity)."""
+    class B(ast.NodeTransformer):
+        def visit_Call(self, node):
+            self.generic_visit(node)
+            f = node.func
+            if isinstance(f, ast.Lambda) and not node.keywords and not any(isinstance(a, ast.Starred) for a in node.args) \
+                    and not f.args.vararg and not f.args.kwarg and not f.args.kwonlyargs \
+                    and len(f.args.posonlyargs + f.args.args) == len(node.args):
+                params = [a.arg for a in f.args.posonlyargs + f.args.args]
+                new = _subst_expr(f.body, dict(zip(params, node.args)))
+                return self.visit(new)
+            return node
+
+        def visit_FunctionDef(self, node):
+            return node
+    out = [B().visit(st) for st in body]
+    for st in out:
+        ast.fix_missing_locations(st)
+    return out
+
+
+def _as_expression(stmts):
+    """A helper body made only of `if c: return A` ... `return B` (nested) as
+    one conditional expression; None when it has any other statement."""
+    if not stmts:
+        return None
+    st = stmts[0]
+    if isinstance(st, ast.Return) and st.value is not None:
+        return st.value
+    if isinstance(st, ast.If):
+        a = _as_expression(st.body)
+        if a is None:
+            return None
+        b = _as_expression(st.orelse) if st.orelse else _as_expression(stmts[1:])
+        if b is None:
+            return None
+        if st.orelse and not always_exits(st.orelse):
+            return None
+        return ast.IfExp(test=st.test, body=a, orelse=b)
+    return None
 
 
 _nbody_cache = {}
@@ -460,6 +578,7 @@ def nbody(func, prog=None, keep=()):
         body = inline_procedures(body, func, prog)
         body = inline_single_returns(body, func, prog)
     body = inline_aliases(body, [p.name for p in func.params], keep=keep)
+    body = beta_reduce(body)
     cache[key] = body
     return body
 
